@@ -9,6 +9,6 @@ PROP = dict(
     rule="tbd",
     assumptions=["tbd"],
     units=[
-        R("rapid", "A", "./c17", "TestC17Rapid", (500, 16), (20000, 16)),
+        R("rapid", "A", "./c17", "TestC17Rapid", (2500, 16), (100000, 16)),
     ],
 )
